@@ -630,6 +630,7 @@ func c07Spec(r *rand.Rand, i int, ingest string) gen.EsSpec {
 		sp.AacIdx = []int{4, 3, 11, 10, 7, 0, 5, 8}[r.Intn(8)] // 44100, 48000, 8000, 11025, 22050, 96000, 32000, 16000
 		sp.AacChans = 1 + r.Intn(2)
 		sp.AacObj = 2
+		sp.TinyAac = (i/2)%3 == 0
 	}
 	return sp
 }
@@ -1007,6 +1008,12 @@ func c07Run(c *fw.Ctx, i int) {
 		n := 0
 		// several ADTS frames in one audio PES (cameras batch audio; only the first has a PTS)
 		multiAdts := sp.ACodec == "aac" && (i/7)%2 == 1
+		// PES headers with stuffing bytes after the PTS (header_data_length > the fields present), and with a DTS field
+		pesStuff := []int{0, 3, 0, 1}[(i/9)%4]
+		pesDts := (i/5)%2 == 1
+		if pesStuff > 0 {
+			jd.ingest += fmt.Sprintf("-pes-stuffing%d", pesStuff)
+		}
 		if multiAdts {
 			jd.ingest += "-multi-adts"
 			jd.batched = 1000.0 / 90000
@@ -1050,7 +1057,7 @@ func c07Run(c *fw.Ctx, i int) {
 					}
 					esb = append(esb, nal...)
 				}
-				ps = append(ps, ref.PsPes(0xE0, ticks, ticks, false, esb, pesMax)...)
+				ps = append(ps, ref.PsPesStuffed(0xE0, ticks, ticks, pesDts, esb, pesMax, pesStuff)...)
 				if !sendPs(ps, uint32(ticks)) {
 					c.Inconclusive("ps send failed")
 					return
@@ -1076,7 +1083,7 @@ func c07Run(c *fw.Ctx, i int) {
 					}
 				}
 				// (an audio frame, or a batch of them, may continue in PES packets that carry no PTS, like video)
-				ps = append(ps, ref.PsPes(0xC0, ticks, ticks, false, p, pesMax)...)
+				ps = append(ps, ref.PsPesStuffed(0xC0, ticks, ticks, false, p, pesMax, pesStuff)...)
 				if !psmSent && vt != 0 {
 					ai++
 					continue // nothing can be interpreted before the first PSM (sent with the first key frame)
